@@ -34,9 +34,16 @@ def gen_schedule(rs, tables: Dict[str, Any], full: bool = True) -> Dict[str, Any
     for name in sorted(tables):
         n = W.table_nrows(tables[name])
         p = list(range(n))
-        mode = rs.choice(["shuffle", "shuffle", "reverse", "identity", "swap"])
+        mode = rs.choice(["shuffle", "shuffle", "reverse", "identity", "swap", "sorted", "sorted"])
         if mode == "shuffle":
             rs.shuffle(p)
+        elif mode == "sorted" and n > 1:
+            # rows physically sorted by some column (how tables usually arrive), ascending or descending
+            col = rs.choice(tables[name]["cols"])
+            vals = col["values"]
+            p.sort(key=lambda i: (vals[i] is None, vals[i] if vals[i] is not None else 0, i))
+            if rs.random() < 0.5:
+                p.reverse()
         elif mode == "reverse":
             p.reverse()
         elif mode == "swap" and n > 1:
